@@ -1,4 +1,209 @@
+//! Family 3: Jwk / JwkSet JSON, jsonprooftoken JWK conversions, the three verifiers over attacker-chosen JWKs.
+use crate::gen::{self, Kind};
 use crate::world::World;
-use crate::Cx;
+use crate::{Cx, In};
+use identity_core::convert::{FromJson, ToJson};
+use identity_did::CoreDID;
+use identity_ecdsa_verifier::{EcDSAJwsVerifier, Secp256K1Verifier, Secp256R1Verifier};
+use identity_eddsa_verifier::{Ed25519Verifier, EdDSAJwsVerifier};
+use identity_jose::jwk::{Jwk, JwkSet};
+use identity_jose::jws::{JwsAlgorithm, JwsVerifier, VerificationInput};
+use identity_storage::key_id_storage::MethodDigest;
+use identity_verification::VerificationMethod;
+use jsonprooftoken::jwk::key::Jwk as JwkExt;
 use vh::Rng;
-pub fn run(_cx: &mut Cx, _w: &World, _rng: &mut Rng, _budget: u64) {}
+
+fn vin(alg: JwsAlgorithm, msg: &[u8], sig: &[u8]) -> VerificationInput {
+  VerificationInput { alg, signing_input: msg.to_vec().into_boxed_slice(), decoded_signature: sig.to_vec().into_boxed_slice() }
+}
+
+/// All three verifiers (and the per-curve static entry points) against one attacker JWK.
+pub fn verify_sweep(cx: &mut Cx, w: &World, origin: &str, jwk: &Jwk, thorough: bool) {
+  let msg = b"eyJhbGciOiJFUzI1NiJ9.e30";
+  let sigs: Vec<Vec<u8>> = if thorough {
+    vec![w.ed.sign(msg), w.p256.sign(msg), w.k256.sign(msg), vec![], vec![0; 63], vec![0; 64], vec![0xff; 64], vec![1; 65], vec![7; 128]]
+  } else {
+    vec![w.p256.sign(msg), vec![], vec![0; 64]]
+  };
+  for sig in &sigs {
+    let arg = format!("sig_len={}", sig.len());
+    let i = In::C(origin, &arg);
+    cx.acc("Secp256R1Verifier.verify", i, || Secp256R1Verifier::verify(&vin(JwsAlgorithm::ES256, msg, sig), jwk).is_ok());
+    cx.acc("Secp256K1Verifier.verify", i, || Secp256K1Verifier::verify(&vin(JwsAlgorithm::ES256K, msg, sig), jwk).is_ok());
+    cx.acc("Ed25519Verifier.verify", i, || Ed25519Verifier::verify(vin(JwsAlgorithm::EdDSA, msg, sig), jwk).is_ok());
+    if thorough {
+      for alg in [JwsAlgorithm::ES256, JwsAlgorithm::ES256K, JwsAlgorithm::EdDSA, JwsAlgorithm::ES384, JwsAlgorithm::NONE, JwsAlgorithm::HS256] {
+        cx.acc("EcDSAJwsVerifier.verify", i, || EcDSAJwsVerifier::default().verify(vin(alg, msg, sig), jwk).is_ok());
+        cx.acc("EdDSAJwsVerifier.verify", i, || EdDSAJwsVerifier::default().verify(vin(alg, msg, sig), jwk).is_ok());
+      }
+    }
+  }
+}
+
+pub fn sweep_jwk(cx: &mut Cx, w: &World, origin: &str, k: &Jwk, verify: u8) {
+  let i = In::C(origin, "Jwk");
+  cx.acc("Jwk.getters", i, || {
+    (
+      k.kty().name().len(),
+      k.use_().map(|u| u.name().len()),
+      k.key_ops().map(|o| o.iter().map(|x| x.name().len()).sum::<usize>()),
+      k.alg().map(str::len),
+      k.kid().map(str::len),
+      k.x5u().map(|u| u.as_str().len()),
+      k.x5c().map(|c| c.len()),
+      k.x5t().map(str::len),
+      k.x5t_s256().map(str::len),
+      format!("{:?}", k.params()).len(),
+    )
+  });
+  cx.acc("Jwk.try_params", i, || (k.try_ec_params().is_ok(), k.try_rsa_params().is_ok(), k.try_oct_params().is_ok(), k.try_okp_params().is_ok()));
+  cx.acc("Jwk.curves", i, || (k.try_ec_curve().is_ok(), k.try_ed_curve().is_ok(), k.try_ecx_curve().is_ok()));
+  cx.acc("Jwk.is_public_private", i, || (k.is_public(), k.is_private()));
+  cx.acc("Jwk.thumbprint", i, || (k.thumbprint_sha256_b64().len(), k.thumbprint_sha256()[0], k.thumbprint_hash_input().len()));
+  cx.acc("Jwk.to_public", i, || k.to_public().map(|p| (p.is_public(), p.thumbprint_sha256_b64().len(), p.to_json().is_ok())));
+  cx.acc("Jwk.check_alg", i, || (k.check_alg("ES256").is_ok(), k.check_alg("").is_ok()));
+  cx.acc("Jwk.to_json", i, || k.to_json().map(|j| Jwk::from_json(&j).map(|b| b == *k).ok()).ok());
+  cx.acc("Jwk.fmt_clone_eq", i, || (format!("{:?}", k).len(), k.clone() == *k));
+  cx.acc("Jwk.mutators", i, || {
+    let mut c = k.clone();
+    let p = c.params().clone();
+    let r = c.set_params(p).is_ok();
+    c.set_kty(c.kty());
+    (r, c.try_ec_params_mut().is_ok(), c.try_okp_params_mut().is_ok(), c.try_rsa_params_mut().is_ok(), c.try_oct_params_mut().is_ok(), c.to_json().is_ok())
+  });
+  cx.acc("JwkExt.try_from_Jwk", i, || {
+    let r: Result<JwkExt, _> = k.try_into();
+    r.map(|e| serde_json::to_string(&e).map(|s| s.len()).ok()).ok()
+  });
+  let did = CoreDID::parse("did:example:123").expect("harness DID");
+  for frag in [None, Some("k"), Some("#k"), Some(""), Some("a b"), Some("%")] {
+    let arg = format!("{:?}", frag);
+    if let Some(Ok(m)) = cx.acc("VerificationMethod.new_from_jwk", In::C(origin, &arg), || VerificationMethod::new_from_jwk(did.clone(), k.clone(), frag)) {
+      cx.acc("MethodDigest.new", In::C(origin, &arg), || MethodDigest::new(&m).map(|d| MethodDigest::unpack(d.pack()).is_ok()).is_ok());
+      cx.acc("VerificationMethod.to_json", In::C(origin, &arg), || m.to_json().map(|j| VerificationMethod::from_json(&j).is_ok()).is_ok());
+    }
+  }
+  if verify > 0 {
+    verify_sweep(cx, w, origin, k, verify > 1);
+  }
+}
+
+fn feed(cx: &mut Cx, w: &World, rng: &mut Rng, j: &str, directed: bool) {
+  let i = In::S(j);
+  if let Some(k) = cx.ent("Jwk::from_json", i, || Jwk::from_json(j)) {
+    let v = if directed { 2 } else if rng.chance(1, 12) { 2 } else if rng.chance(1, 3) { 1 } else { 0 };
+    sweep_jwk(cx, w, j, &k, v);
+  }
+  if let Some(k) = cx.ent("Jwk::from_json_slice", In::B(j.as_bytes()), || Jwk::from_json_slice(j.as_bytes())) {
+    cx.acc("Jwk.thumbprint", i, || k.thumbprint_sha256_b64().len());
+  }
+  if let Some(s) = cx.ent("JwkSet::from_json", i, || JwkSet::from_json(j)) {
+    cx.acc("JwkSet.sweep", i, || {
+      let mut c = s.clone();
+      let popped = c.pop().is_some();
+      let del = c.del(0) | c.del(usize::MAX);
+      if let Some(k) = s.as_slice().first() {
+        c.add(k.clone());
+      }
+      (s.len(), s.is_empty(), s.iter().count(), s.get("1").len(), s.get("").len(), popped, del, c.len(), s.to_json().is_ok(), format!("{:?}", s).len())
+    });
+    let keys: Vec<Jwk> = s.as_slice().iter().take(3).cloned().collect();
+    for k in &keys {
+      sweep_jwk(cx, w, j, k, 0);
+    }
+  }
+  if let Some(e) = cx.ent("JwkExt::from_json", i, || serde_json::from_str::<JwkExt>(j)) {
+    // conversion of a value accepted by the (re-exported dependency's) JWK parser into the library's Jwk
+    if let Some(k) = cx.ent("Jwk::try_from<JwkExt>", i, || Jwk::try_from(e)) {
+      sweep_jwk(cx, w, j, &k, 0);
+    }
+  }
+}
+
+fn bbs_like_okp() -> Vec<String> {
+  vec![
+    r#"{"kty":"OKP","crv":"Bls12381G2","x":"AAAA"}"#.to_string(),
+    r#"{"kty":"OKP","crv":"Bls12381G2","x":"AAAA","d":"AAAA"}"#.to_string(),
+    r#"{"kty":"OKP","crv":"Ed25519","x":"11qYAYKxCrfVS_7TyWQHOg7hcvPapiMlrwIaaPcHURo"}"#.to_string(),
+    r#"{"kty":"EC","crv":"P-256","x":"AAAA","y":"AAAA"}"#.to_string(),
+    r#"{"kty":"EC","crv":"BLS12381G2","x":"AAAA","y":"AAAA"}"#.to_string(),
+    r#"{"kty":"EC","crv":"P-256","x":"AAAA","y":"AAAA","alg":"BBS-SHA-256","use":"proof","key_ops":["proofGeneration"],"x5u":"not a url"}"#.to_string(),
+    r#"{"kty":"EC","crv":"P-256","x":"AAAA","y":"AAAA","x5u":"https://example.com/","kid":"k","x5c":["a"],"x5t":"t"}"#.to_string(),
+  ]
+}
+
+pub fn run(cx: &mut Cx, w: &World, rng: &mut Rng, budget: u64) {
+  cx.set("jwk", "directed");
+  let mut directed: Vec<String> = w.hostile.iter().map(|(_, j)| j.clone()).collect();
+  directed.extend(bbs_like_okp());
+  for k in [&w.ed, &w.p256, &w.k256] {
+    directed.push(k.public_jwk_json(None));
+    directed.push(k.public_jwk_json(Some(k.alg.name())));
+    directed.push(k.private_jwk_json(None));
+    directed.push(format!(r#"{{"keys":[{},{}]}}"#, k.public_jwk_json(None), k.private_jwk_json(Some("x"))));
+  }
+  for t in [
+    r#"{}"#, r#"{"kty":"EC"}"#, r#"{"kty":"OKP"}"#, r#"{"kty":"RSA"}"#, r#"{"kty":"oct"}"#, r#"{"kty":"XX","x":"a"}"#, r#"{"kty":"EC","crv":"P-256","x":1,"y":2}"#,
+    r#"{"kty":"OKP","crv":"Ed25519","x":"AA","n":"AQAB","e":"AQAB"}"#, r#"{"kty":"OKP","crv":"P-256","x":"AA","y":"AA"}"#,
+    r#"{"kty":"EC","crv":"P-256","x":"AA","y":"AA","use":"zzz"}"#, r#"{"kty":"EC","crv":"P-256","x":"AA","y":"AA","key_ops":["sign","bogus"]}"#,
+    r#"{"kty":"EC","crv":"P-256","x":"AA","y":"AA","key_ops":[]}"#, r#"{"kty":"EC","crv":"P-256","x":"AA","y":"AA","x5u":"::"}"#,
+    r#"{"kty":"RSA","n":"AQAB","e":"AQAB","d":"AA","oth":[{"r":"AA","d":"AA","t":"AA"}]}"#, r#"{"kty":"RSA","n":"","e":""}"#,
+    r#"{"kty":"EC","kty":"OKP","crv":"P-256","x":"AA","y":"AA"}"#, r#"{"keys":[]}"#, r#"{"keys":[{}]}"#, r#"{"keys":null}"#, r#"{"keys":[1]}"#, r#"[]"#, r#"null"#,
+  ] {
+    directed.push(t.to_string());
+  }
+  for (k, j) in directed.iter().enumerate() {
+    if cx.args.mine(k as u64) {
+      feed(cx, w, rng, j, true);
+    }
+  }
+
+  // ---- grammar: coordinates of every length 0..=66 on the valid keys (D13 lives here)
+  cx.gen("grammar");
+  let (px, py) = w.p256.public_xy();
+  let (kx, ky) = w.k256.public_xy();
+  let (ex, _) = w.ed.public_xy();
+  let mut idx = 0u64;
+  for n in 0..=66usize {
+    for (crv, x, y) in [("P-256", &px, &py), ("secp256k1", &kx, &ky)] {
+      for which in 0..3 {
+        idx += 1;
+        if !cx.args.mine(idx) {
+          continue;
+        }
+        let mut xx = x.clone();
+        let mut yy = y.clone();
+        if which != 1 {
+          xx.resize(n, 1);
+        }
+        if which != 0 {
+          yy.resize(n, 1);
+        }
+        let j = crate::world::jwk_json("EC", crv, &xx, Some(&yy), None);
+        if let Some(k) = cx.ent("Jwk::from_json", In::S(&j), || Jwk::from_json(&j)) {
+          verify_sweep(cx, w, &j, &k, false);
+        }
+      }
+    }
+    idx += 1;
+    if cx.args.mine(idx) {
+      let mut xx = ex.clone();
+      xx.resize(n, 1);
+      let j = crate::world::jwk_json("OKP", "Ed25519", &xx, None, None);
+      if let Some(k) = cx.ent("Jwk::from_json", In::S(&j), || Jwk::from_json(&j)) {
+        verify_sweep(cx, w, &j, &k, false);
+      }
+    }
+  }
+
+  // ---- mutation of seeds
+  cx.gen("mutation");
+  let mut idxs = w.seeds.of(Kind::Jwk);
+  idxs.extend(w.seeds.of(Kind::JwkSet));
+  for _ in 0..budget {
+    let (_, text, val) = w.seeds.pick(rng, &idxs);
+    let other = gen::any_token(rng);
+    let j = gen::mutate_json_text(rng, text, Some(val), other);
+    feed(cx, w, rng, &j, false);
+  }
+}
